@@ -9,941 +9,8 @@ use vstd::prelude::*;
 verus! {
 //@include _prelude.rs
 
-//@item nervusdb-storage/src/lib.rs const PAGE_SIZE
-//@item nervusdb-storage/src/error.rs enum Error
-//@rewrite "    Serialization(serde_json::Error)," => ""
-//@item nervusdb-storage/src/error.rs type Result
-//@item nervusdb-storage/src/pager.rs struct PageId keep-derive
-//@item nervusdb-storage/src/index/btree.rs const MAGIC
-//@item nervusdb-storage/src/index/btree.rs const VERSION
-//@item nervusdb-storage/src/index/btree.rs enum PageKind keep-derive
-//@item nervusdb-storage/src/index/btree.rs const COMMON_HEADER_SIZE
-//@item nervusdb-storage/src/index/btree.rs const INTERNAL_HEADER_SIZE
-//@item nervusdb-storage/src/index/btree.rs const OFF_MAGIC
-//@item nervusdb-storage/src/index/btree.rs const OFF_KIND
-//@item nervusdb-storage/src/index/btree.rs const OFF_VERSION
-//@item nervusdb-storage/src/index/btree.rs const OFF_CELL_COUNT
-//@item nervusdb-storage/src/index/btree.rs const OFF_CELL_CONTENT_BEGIN
-//@item nervusdb-storage/src/index/btree.rs const OFF_FREE_BYTES
-//@item nervusdb-storage/src/index/btree.rs const OFF_RESERVED
-//@item nervusdb-storage/src/index/btree.rs const OFF_RIGHT_SIBLING
-//@item nervusdb-storage/src/index/btree.rs const OFF_LEFTMOST_CHILD
-//@item nervusdb-storage/src/index/btree.rs struct Page
+//@include _btree_page.rs
 
-impl PageId {
-//@extract nervusdb-storage/src/pager.rs PageId::new ret r
-//@| ensures r.0 == id
-//@end
-//@extract nervusdb-storage/src/pager.rs PageId::as_u64 ret r
-//@| ensures r == self.0
-//@end
-}
-
-//@trusted v_slice_write: `buf[off..off + N].copy_from_slice(&bytes)` overwrites N bytes of buf at off and nothing else (std panics unless off + N <= buf.len(): precondition)
-#[verifier::external_body]
-pub fn v_slice_write<const N: usize>(buf: &mut [u8], off: usize, src: &[u8; N])
-    requires off + N <= old(buf)@.len()
-    ensures final(buf)@ == old(buf)@.take(off as int) + src@ + old(buf)@.skip(off + N)
-{ buf[off..off + N].copy_from_slice(src) }
-
-pub proof fn lemma_le16_len(x: u16) ensures le16(x).len() == 2, from_le16(le16(x)) == x {
-    assert(((((x & 0xff) as u8) as u16) | ((((x >> 8) as u8) as u16) << 8)) == x) by (bit_vector);
-}
-pub proof fn lemma_le32_len(x: u32) ensures le32(x).len() == 4 { lemma_le32_roundtrip(x); }
-pub proof fn lemma_le64_len(x: u64) ensures le64(x).len() == 8, from_le64(le64(x)) == x { lemma_le64_roundtrip(x); }
-
-//@extract nervusdb-storage/src/index/btree.rs header_size ret r
-//@| ensures r == (if kind == PageKind::Leaf { 24usize } else { 32usize })
-//@end
-
-//@extract nervusdb-storage/src/index/btree.rs read_u16_le ret r
-//@| requires off + 2 <= buf@.len() <= 0x7fff_ffff_ffff_ffff
-//@| ensures r == from_le16(buf@.subrange(off as int, off + 2))
-//@end
-//@extract nervusdb-storage/src/index/btree.rs read_u64_le ret r
-//@| requires off + 8 <= buf@.len() <= 0x7fff_ffff_ffff_ffff
-//@| ensures r == from_le64(buf@.subrange(off as int, off + 8))
-//@end
-//@extract nervusdb-storage/src/index/btree.rs write_u16_le
-//@| requires off + 2 <= old(buf)@.len() <= 0x7fff_ffff_ffff_ffff
-//@| ensures final(buf)@ == old(buf)@.take(off as int) + le16(v) + old(buf)@.skip(off + 2),
-//@|     final(buf)@.len() == old(buf)@.len(), final(buf)@.subrange(off as int, off + 2) == le16(v),
-//@|     forall|j: int| 0 <= j < old(buf)@.len() && !(off <= j < off + 2) ==> #[trigger] final(buf)@[j] == old(buf)@[j],
-//@proof before 1 "=}"
-//@| lemma_le16_len(v);
-//@| assert(buf@.subrange(off as int, off + 2) =~= le16(v));
-//@prewrite "buf[off..off + 2].copy_from_slice(&v.to_le_bytes());" => "v_slice_write(buf, off, &v_u16_to_le_bytes(v));"
-//@end
-//@extract nervusdb-storage/src/index/btree.rs write_u32_le
-//@| requires off + 4 <= old(buf)@.len() <= 0x7fff_ffff_ffff_ffff
-//@| ensures final(buf)@ == old(buf)@.take(off as int) + le32(v) + old(buf)@.skip(off + 4),
-//@|     final(buf)@.len() == old(buf)@.len(), final(buf)@.subrange(off as int, off + 4) == le32(v),
-//@|     forall|j: int| 0 <= j < old(buf)@.len() && !(off <= j < off + 4) ==> #[trigger] final(buf)@[j] == old(buf)@[j],
-//@proof before 1 "=}"
-//@| lemma_le32_len(v);
-//@| assert(buf@.subrange(off as int, off + 4) =~= le32(v));
-//@prewrite "buf[off..off + 4].copy_from_slice(&v.to_le_bytes());" => "v_slice_write(buf, off, &v_u32_to_le_bytes(v));"
-//@end
-//@extract nervusdb-storage/src/index/btree.rs write_u64_le
-//@| requires off + 8 <= old(buf)@.len() <= 0x7fff_ffff_ffff_ffff
-//@| ensures final(buf)@ == old(buf)@.take(off as int) + le64(v) + old(buf)@.skip(off + 8),
-//@|     final(buf)@.len() == old(buf)@.len(), final(buf)@.subrange(off as int, off + 8) == le64(v),
-//@|     forall|j: int| 0 <= j < old(buf)@.len() && !(off <= j < off + 8) ==> #[trigger] final(buf)@[j] == old(buf)@[j],
-//@proof before 1 "=}"
-//@| lemma_le64_len(v);
-//@| assert(buf@.subrange(off as int, off + 8) =~= le64(v));
-//@prewrite "buf[off..off + 8].copy_from_slice(&v.to_le_bytes());" => "v_slice_write(buf, off, &v_u64_to_le_bytes(v));"
-//@end
-
-// ================================================================== varints (LEB128, u32, at most 5 bytes)
-pub open spec fn vlen(v: u32) -> int { if v < 0x80 { 1 } else if v < 0x4000 { 2 } else if v < 0x20_0000 { 3 } else if v < 0x1000_0000 { 4 } else { 5 } }
-pub open spec fn venc(v: u32) -> Seq<u8>
-    decreases v
-{ if v < 0x80 { seq![v as u8] } else { seq![((v % 128) + 128) as u8] + venc(v / 128) } }
-
-pub proof fn lemma_shr7(v: u32)
-    ensures (v >> 7) == v / 128, ((v as u8) | 0x80u8) == ((v % 128) + 128) as u8, (v as u8) & 0x7Fu8 == (v % 128) as u8,
-        v < 0x80 ==> (v as u8) == v && ((v as u8) & 0x80u8) == 0,
-{
-    assert((v >> 7) == v / 128) by (bit_vector);
-    assert(((v as u8) | 0x80u8) == ((v % 128) + 128) as u8) by (bit_vector);
-    assert((v as u8) & 0x7Fu8 == (v % 128) as u8) by (bit_vector);
-    assert(v < 0x80 ==> (v as u8) == v && ((v as u8) & 0x80u8) == 0) by (bit_vector);
-}
-
-//@extract nervusdb-storage/src/index/btree.rs varint_u32_len ret r
-//@| ensures r == vlen(v)
-//@prewrite "let mut n = 1;" => "let mut n: usize = 1; let ghost v0 = v;"
-//@loop 1
-//@| invariant 1 <= n <= 5, vlen(v0) == vlen(v) + (n - 1),
-//@|     n == 2 ==> v < 0x200_0000, n == 3 ==> v < 0x4_0000, n == 4 ==> v < 0x800, n == 5 ==> v < 0x10,
-//@| decreases v
-//@proof before 1 "v >>= 7;"
-//@| lemma_shr7(v);
-//@end
-
-pub proof fn lemma_venc_len(v: u32)
-    ensures venc(v).len() == vlen(v)
-    decreases v
-{
-    if v >= 0x80 { lemma_venc_len(v / 128); }
-}
-
-//@extract nervusdb-storage/src/index/btree.rs write_varint_u32 ret r
-//@| requires vlen(v0) <= old(out)@.len() <= 0x7fff_ffff_ffff_ffff
-//@| ensures r == vlen(v0), final(out)@.len() == old(out)@.len(),
-//@|     final(out)@.take(r as int) == venc(v0), final(out)@.skip(r as int) == old(out)@.skip(r as int),
-//@prewrite "mut v: u32" => "v0: u32"
-//@prewrite "let mut i = 0;" => "let mut v = v0; let mut i: usize = 0;"
-//@loop 1
-//@| invariant i <= 4, vlen(v0) == vlen(v) + i, out@.len() == old(out)@.len(), vlen(v0) <= out@.len(),
-//@|     i == 1 ==> v < 0x200_0000, i == 2 ==> v < 0x4_0000, i == 3 ==> v < 0x800, i == 4 ==> v < 0x10,
-//@|     out@.take(i as int) + venc(v) == venc(v0), out@.skip(i as int) == old(out)@.skip(i as int),
-//@| decreases v
-//@proof before 1 "out[i] = (v as u8) | 0x80;" raw
-//@| proof { lemma_shr7(v); }
-//@| let ghost o1 = out@;
-//@proof before 1 "v >>= 7;"
-//@| assert(out@.take(i + 1) =~= out@.take(i as int).push(((v % 128) + 128) as u8));
-//@| assert(out@.take(i as int) =~= old(out)@.take(0) + out@.take(i as int));
-//@| assert(venc(v) =~= seq![((v % 128) + 128) as u8] + venc(v / 128));
-//@| assert(out@.take(i + 1) + venc(v / 128) =~= out@.take(i as int) + venc(v));
-//@| assert forall|j: int| 0 <= j < out@.len() - (i + 1) implies #[trigger] out@.skip(i + 1)[j] == old(out)@.skip(i + 1)[j] by {
-//@|     assert(o1.skip(i as int)[j + 1] == old(out)@.skip(i as int)[j + 1]);
-//@| }
-//@| assert(out@.skip(i + 1) =~= old(out)@.skip(i + 1));
-//@proof before 1 "out[i] = v as u8;" raw
-//@| proof { lemma_shr7(v); }
-//@| let ghost o2 = out@;
-//@proof before 1 "=i + 1"
-//@| assert(venc(v) =~= seq![v as u8]);
-//@| assert(out@.take(i + 1) =~= venc(v0));
-//@| assert forall|j: int| 0 <= j < out@.len() - (i + 1) implies #[trigger] out@.skip(i + 1)[j] == old(out)@.skip(i + 1)[j] by {
-//@|     assert(o2.skip(i as int)[j + 1] == old(out)@.skip(i as int)[j + 1]);
-//@| }
-//@| assert(out@.skip(i + 1) =~= old(out)@.skip(i + 1));
-//@end
-
-/// what the varint decoder returns on a byte string (value, bytes consumed); uninterpreted: only the
-/// three facts below are known about it
-pub uninterp spec fn vdec(s: Seq<u8>) -> Option<(u32, int)>;
-//@trusted axiom_vdec_bounds: read_varint_u32 consumes between 1 and 5 bytes, never more than it was given — discharged on the compiled code by Kani harness c26_varint_read_total (every buffer of <= 6 arbitrary bytes; the decoder never looks past 5)
-#[verifier::external_body]
-pub proof fn axiom_vdec_bounds(s: Seq<u8>)
-    ensures vdec(s) is Some ==> 1 <= vdec(s)->Some_0.1 <= 5 && vdec(s)->Some_0.1 <= s.len()
-{}
-//@trusted axiom_vdec_prefix: the result of read_varint_u32 depends only on the bytes it consumed — discharged by Kani harness c26_varint_read_prefix
-#[verifier::external_body]
-pub proof fn axiom_vdec_prefix(s: Seq<u8>, t: Seq<u8>)
-    requires vdec(s) is Some, t.len() >= vdec(s)->Some_0.1, t.take(vdec(s)->Some_0.1) == s.take(vdec(s)->Some_0.1)
-    ensures vdec(t) == vdec(s)
-{}
-//@trusted axiom_vdec_roundtrip: read_varint_u32 inverts write_varint_u32 for every u32 — discharged by Kani harness c26_varint_roundtrip (real writer into real reader, all u32); the writer's output is venc(v) by the Verus proof of write_varint_u32 above
-#[verifier::external_body]
-pub proof fn axiom_vdec_roundtrip(v: u32, rest: Seq<u8>)
-    ensures vdec(venc(v) + rest) == Some((v, vlen(v)))
-{}
-//@trusted read_varint_u32: `for (i, &b) in buf.iter().enumerate()` is an iterator adapter Verus cannot ingest; the function is characterised by vdec (three axioms above, each discharged by a Kani harness on the compiled code)
-#[verifier::external_body]
-pub fn read_varint_u32(buf: &[u8]) -> (r: Option<(u32, usize)>)
-    ensures r is Some <==> vdec(buf@) is Some, r is Some ==> r->Some_0.0 == vdec(buf@)->Some_0.0 && r->Some_0.1 == vdec(buf@)->Some_0.1
-{ unimplemented!() }
-
-// ================================================================== abstract view of a slotted index page
-pub open spec fn magic4() -> Seq<u8> { MAGIC@ }
-pub open spec fn pg_kind_ok(b: Seq<u8>) -> bool { b.len() == 8192 && b.subrange(0, 4) == magic4() && b[5] == VERSION && (b[4] == 0 || b[4] == 1) }
-pub open spec fn pg_hdr(b: Seq<u8>) -> int { if b[4] == 0 { 24 } else { 32 } }
-pub open spec fn pg_count(b: Seq<u8>) -> int { from_le16(b.subrange(6, 8)) as int }
-pub open spec fn pg_begin(b: Seq<u8>) -> int { from_le16(b.subrange(8, 10)) as int }
-pub open spec fn pg_slot(b: Seq<u8>, i: int) -> int { from_le16(b.subrange(pg_hdr(b) + 2 * i, pg_hdr(b) + 2 * i + 2)) as int }
-
-/// a leaf cell at offset `off`: varint key length, key bytes, payload (u64 LE)
-pub open spec fn lc_vlen(b: Seq<u8>, off: int) -> int { vdec(b.skip(off))->Some_0.1 }
-pub open spec fn lc_klen(b: Seq<u8>, off: int) -> int { vdec(b.skip(off))->Some_0.0 as int }
-pub open spec fn lc_end(b: Seq<u8>, off: int) -> int { off + lc_vlen(b, off) + lc_klen(b, off) + 8 }
-pub open spec fn lc_ok(b: Seq<u8>, off: int) -> bool { 0 <= off < 8192 && vdec(b.skip(off)) is Some && lc_end(b, off) <= 8192 }
-pub open spec fn lc_key(b: Seq<u8>, off: int) -> Seq<u8> { b.subrange(off + lc_vlen(b, off), off + lc_vlen(b, off) + lc_klen(b, off)) }
-pub open spec fn lc_payload(b: Seq<u8>, off: int) -> u64 { from_le64(b.subrange(lc_end(b, off) - 8, lc_end(b, off))) }
-
-/// representation invariant of a leaf page
-pub open spec fn leaf_wf(b: Seq<u8>) -> bool {
-    &&& pg_kind_ok(b) && b[4] == 0
-    &&& 24 + 2 * pg_count(b) <= pg_begin(b) <= 8192
-    &&& forall|i: int| 0 <= i < pg_count(b) ==> pg_begin(b) <= #[trigger] pg_slot(b, i) && lc_ok(b, pg_slot(b, i))
-}
-/// the leaf as a sequence of (key, payload) entries in slot order
-pub open spec fn leaf_cells(b: Seq<u8>) -> Seq<(Seq<u8>, u64)> {
-    Seq::new(pg_count(b) as nat, |i: int| (lc_key(b, pg_slot(b, i)), lc_payload(b, pg_slot(b, i))))
-}
-
-//@trusted v_arr_range: `page[a..b]` on the page array is the sub-slice (std panics unless a <= b <= 8192: precondition)
-#[verifier::external_body]
-pub fn v_arr_range(page: &[u8; PAGE_SIZE], a: usize, b: usize) -> (r: &[u8])
-    requires a <= b <= 8192
-    ensures r@ == page@.subrange(a as int, b as int)
-{ &page[a..b] }
-//@trusted v_arr_from: `page[a..]` on the page array is the tail slice (std panics unless a <= 8192: precondition)
-#[verifier::external_body]
-pub fn v_arr_from(page: &[u8; PAGE_SIZE], a: usize) -> (r: &[u8])
-    requires a <= 8192
-    ensures r@ == page@.skip(a as int)
-{ &page[a..] }
-//@trusted v_slice_ne_array4: `slice != array` on bytes is sequence inequality (std)
-#[verifier::external_body]
-pub fn v_slice_ne_array4(s: &[u8], a: &[u8; 4]) -> (r: bool)
-    ensures r == (s@ != a@)
-{ s != a }
-
-impl<'a> Page<'a> {
-    pub open spec fn b(&self) -> Seq<u8> { (*self.buf)@ }
-
-//@extract nervusdb-storage/src/index/btree.rs Page::new ret r
-//@| ensures r.b() == old(buf)@, *r.buf == *old(buf), *final(r.buf) == *final(buf)
-//@end
-
-//@extract nervusdb-storage/src/index/btree.rs Page::kind ret r
-//@| ensures r is Ok <==> pg_kind_ok(self.b()),
-//@|     r is Ok ==> r->Ok_0 == (if self.b()[4] == 0 { PageKind::Leaf } else { PageKind::Internal }),
-//@prewrite "self.buf[OFF_MAGIC..OFF_MAGIC + 4] != MAGIC" => "v_slice_ne_array4(v_arr_range(self.buf, OFF_MAGIC, OFF_MAGIC + 4), &MAGIC)"
-//@end
-
-//@extract nervusdb-storage/src/index/btree.rs Page::cell_count ret r
-//@| ensures r == pg_count(self.b())
-//@end
-//@extract nervusdb-storage/src/index/btree.rs Page::cell_content_begin ret r
-//@| ensures r == pg_begin(self.b())
-//@end
-//@extract nervusdb-storage/src/index/btree.rs Page::slots_off ret r
-//@| ensures r is Ok <==> pg_kind_ok(self.b()), r is Ok ==> r->Ok_0 == pg_hdr(self.b()),
-//@end
-//@extract nervusdb-storage/src/index/btree.rs Page::slot_get ret r
-//@| requires pg_kind_ok(self.b()) ==> pg_hdr(self.b()) + 2 * i + 2 <= 8192,
-//@| ensures r is Ok <==> pg_kind_ok(self.b()), r is Ok ==> r->Ok_0 == pg_slot(self.b(), i as int),
-//@end
-//@extract nervusdb-storage/src/index/btree.rs Page::free_space ret r
-//@| ensures r is Ok <==> pg_kind_ok(self.b()),
-//@|     r is Ok ==> r->Ok_0 == (if pg_begin(self.b()) >= pg_hdr(self.b()) + 2 * pg_count(self.b()) { pg_begin(self.b()) - (pg_hdr(self.b()) + 2 * pg_count(self.b())) } else { 0 }),
-//@end
-
-// C26.page.leaf_cell.spec — on a well-formed leaf, cell `idx` reads back as entry `idx` of the abstract view.
-//@extract nervusdb-storage/src/index/btree.rs Page::leaf_cell_key_and_payload ret r
-//@| requires leaf_wf(self.b()),
-//@| ensures r is Ok <==> idx < pg_count(self.b()),
-//@|     r is Ok ==> r->Ok_0.0@ == leaf_cells(self.b())[idx as int].0 && r->Ok_0.1 == leaf_cells(self.b())[idx as int].1,
-//@prewrite "read_varint_u32(&self.buf[cell_off..])" => "read_varint_u32(v_arr_from(self.buf, cell_off))"
-//@prewrite "Ok((&self.buf[key_start..key_end], payload))" => "Ok((v_arr_range(self.buf, key_start, key_end), payload))"
-//@end
-}
-
-// ================================================================== key order: byte-wise lexicographic
-pub open spec fn lex_lt(a: Seq<u8>, b: Seq<u8>) -> bool
-    decreases a.len()
-{
-    if b.len() == 0 { false } else if a.len() == 0 { true } else if a[0] != b[0] { a[0] < b[0] } else { lex_lt(a.skip(1), b.skip(1)) }
-}
-pub open spec fn lex_le(a: Seq<u8>, b: Seq<u8>) -> bool { !lex_lt(b, a) }
-/// a < b <= c  ==>  a < c        and        a <= b <= c  ==>  a <= c
-pub proof fn lemma_lex_trans(a: Seq<u8>, b: Seq<u8>, c: Seq<u8>)
-    ensures lex_lt(a, b) && lex_le(b, c) ==> lex_lt(a, c),
-        lex_le(a, b) && lex_lt(b, c) ==> lex_lt(a, c),
-        lex_le(a, b) && lex_le(b, c) ==> lex_le(a, c),
-    decreases a.len() + b.len() + c.len()
-{
-    if a.len() > 0 && b.len() > 0 && c.len() > 0 {
-        lemma_lex_trans(a.skip(1), b.skip(1), c.skip(1));
-    }
-}
-pub proof fn lemma_lex_irrefl(a: Seq<u8>)
-    ensures !lex_lt(a, a)
-    decreases a.len()
-{
-    if a.len() > 0 { lemma_lex_irrefl(a.skip(1)); }
-}
-pub proof fn lemma_lex_total(a: Seq<u8>, b: Seq<u8>)
-    ensures lex_lt(a, b) || lex_lt(b, a) || a == b, !(lex_lt(a, b) && lex_lt(b, a)),
-    decreases a.len() + b.len()
-{
-    if a.len() > 0 && b.len() > 0 {
-        lemma_lex_total(a.skip(1), b.skip(1));
-        if a[0] == b[0] && a.skip(1) == b.skip(1) {
-            assert(a =~= seq![a[0]] + a.skip(1));
-            assert(b =~= seq![b[0]] + b.skip(1));
-        }
-    } else if a.len() == 0 && b.len() == 0 {
-        assert(a =~= b);
-    }
-}
-//@trusted v_bytes_lt: `<` on byte slices is std's lexicographic order (Ord for [u8])
-#[verifier::external_body]
-pub fn v_bytes_lt(a: &[u8], b: &[u8]) -> (r: bool)
-    ensures r == lex_lt(a@, b@)
-{ a < b }
-//@trusted v_bytes_le: `<=` on byte slices is std's lexicographic order (Ord for [u8])
-#[verifier::external_body]
-pub fn v_bytes_le(a: &[u8], b: &[u8]) -> (r: bool)
-    ensures r == lex_le(a@, b@)
-{ a <= b }
-
-pub open spec fn keys_sorted(cells: Seq<(Seq<u8>, u64)>) -> bool {
-    forall|i: int, j: int| 0 <= i < j < cells.len() ==> lex_le(#[trigger] cells[i].0, #[trigger] cells[j].0)
-}
-
-impl<'a> Page<'a> {
-// C26.page.leaf_lower_bound.spec — on a well-formed leaf whose keys are in order, the result is the
-// first position whose key is >= target (any cell count).
-//@extract nervusdb-storage/src/index/btree.rs Page::leaf_lower_bound ret r
-//@| requires leaf_wf(self.b()), keys_sorted(leaf_cells(self.b())),
-//@| ensures r is Ok, r->Ok_0 <= pg_count(self.b()),
-//@|     forall|i: int| 0 <= i < r->Ok_0 ==> lex_lt(#[trigger] leaf_cells(self.b())[i].0, target@),
-//@|     forall|i: int| r->Ok_0 <= i < pg_count(self.b()) ==> lex_le(target@, #[trigger] leaf_cells(self.b())[i].0),
-//@preregex "?if k < target \{" => "if v_bytes_lt(k, target) {"
-//@preregex "?if k <= target \{" => "if v_bytes_le(k, target) {"
-//@loop 1
-//@| invariant leaf_wf(self.b()), keys_sorted(leaf_cells(self.b())), n == pg_count(self.b()), lo <= hi <= n, n <= 65535,
-//@|     forall|i: int| 0 <= i < lo ==> lex_lt(#[trigger] leaf_cells(self.b())[i].0, target@),
-//@|     forall|i: int| hi <= i < n ==> lex_le(target@, #[trigger] leaf_cells(self.b())[i].0),
-//@| decreases hi - lo
-//@proof before 1 "=lo = mid + 1;"
-//@| let cs = leaf_cells(self.b());
-//@| assert forall|i: int| 0 <= i < mid + 1 implies lex_lt(#[trigger] cs[i].0, target@) by {
-//@|     if i < mid { assert(lex_le(cs[i].0, cs[mid as int].0)); }
-//@|     lemma_lex_irrefl(cs[mid as int].0);
-//@|     lemma_lex_trans(cs[i].0, cs[mid as int].0, target@);
-//@| }
-//@proof before 1 "=hi = mid;"
-//@| let cs = leaf_cells(self.b());
-//@| assert forall|i: int| mid <= i < n implies lex_le(target@, #[trigger] cs[i].0) by {
-//@|     if mid < i { assert(lex_le(cs[mid as int].0, cs[i].0)); }
-//@|     lemma_lex_irrefl(cs[mid as int].0);
-//@|     lemma_lex_trans(target@, cs[mid as int].0, cs[i].0);
-//@| }
-//@end
-}
-
-// ================================================================== internal pages
-/// an internal cell at offset `off`: right child (u64 LE), varint key length, key bytes
-pub open spec fn ic_vlen(b: Seq<u8>, off: int) -> int { vdec(b.skip(off + 8))->Some_0.1 }
-pub open spec fn ic_klen(b: Seq<u8>, off: int) -> int { vdec(b.skip(off + 8))->Some_0.0 as int }
-pub open spec fn ic_end(b: Seq<u8>, off: int) -> int { off + 8 + ic_vlen(b, off) + ic_klen(b, off) }
-pub open spec fn ic_ok(b: Seq<u8>, off: int) -> bool { 0 <= off && off + 8 < 8192 && vdec(b.skip(off + 8)) is Some && ic_end(b, off) <= 8192 }
-pub open spec fn ic_key(b: Seq<u8>, off: int) -> Seq<u8> { b.subrange(off + 8 + ic_vlen(b, off), ic_end(b, off)) }
-pub open spec fn ic_child(b: Seq<u8>, off: int) -> u64 { from_le64(b.subrange(off, off + 8)) }
-pub open spec fn internal_wf(b: Seq<u8>) -> bool {
-    &&& pg_kind_ok(b) && b[4] == 1
-    &&& 32 + 2 * pg_count(b) <= pg_begin(b) <= 8192
-    &&& forall|i: int| 0 <= i < pg_count(b) ==> pg_begin(b) <= #[trigger] pg_slot(b, i) && ic_ok(b, pg_slot(b, i))
-}
-/// separators and children of an internal page: child 0 is the leftmost child, child i+1 is cell i's right child
-pub open spec fn int_seps(b: Seq<u8>) -> Seq<Seq<u8>> { Seq::new(pg_count(b) as nat, |i: int| ic_key(b, pg_slot(b, i))) }
-pub open spec fn int_child(b: Seq<u8>, i: int) -> u64 { if i == 0 { from_le64(b.subrange(24, 32)) } else { ic_child(b, pg_slot(b, i - 1)) } }
-pub open spec fn seps_sorted(s: Seq<Seq<u8>>) -> bool { forall|i: int, j: int| 0 <= i < j < s.len() ==> lex_le(#[trigger] s[i], #[trigger] s[j]) }
-
-impl<'a> Page<'a> {
-//@extract nervusdb-storage/src/index/btree.rs Page::right_sibling ret r
-//@| ensures r.0 == from_le64(self.b().subrange(16, 24))
-//@end
-//@extract nervusdb-storage/src/index/btree.rs Page::leftmost_child ret r
-//@| ensures r is Ok <==> pg_kind_ok(self.b()) && self.b()[4] == 1, r is Ok ==> r->Ok_0.0 == from_le64(self.b().subrange(24, 32)),
-//@end
-//@extract nervusdb-storage/src/index/btree.rs Page::internal_cell_key_and_right_child ret r
-//@| requires internal_wf(self.b()),
-//@| ensures r is Ok <==> idx < pg_count(self.b()),
-//@|     r is Ok ==> r->Ok_0.0@ == int_seps(self.b())[idx as int] && r->Ok_0.1.0 == int_child(self.b(), idx + 1),
-//@prewrite "read_varint_u32(&self.buf[cell_off + 8..])" => "read_varint_u32(v_arr_from(self.buf, cell_off + 8))"
-//@prewrite "Ok((&self.buf[key_start..key_end], right_child))" => "Ok((v_arr_range(self.buf, key_start, key_end), right_child))"
-//@end
-
-// C26.page.internal_child_for_key.spec — descent goes to the child in front of the FIRST separator that
-// is >= target: every separator before the chosen position is < target, every one from it on is
-// >= target.  (A run of equal keys may straddle a split, with part of it at the end of the child
-// left of a separator equal to the key: that child is where the run starts.)
-//@extract nervusdb-storage/src/index/btree.rs Page::internal_child_for_key ret r
-//@| requires internal_wf(self.b()), seps_sorted(int_seps(self.b())),
-//@| ensures r is Ok, r->Ok_0.1 <= pg_count(self.b()), r->Ok_0.0.0 == int_child(self.b(), r->Ok_0.1 as int),
-//@|     forall|i: int| 0 <= i < r->Ok_0.1 ==> lex_lt(#[trigger] int_seps(self.b())[i], target@),
-//@|     forall|i: int| r->Ok_0.1 <= i < pg_count(self.b()) ==> lex_le(target@, #[trigger] int_seps(self.b())[i]),
-//@preregex "?if k < target \{" => "if v_bytes_lt(k, target) {"
-//@preregex "?if k <= target \{" => "if v_bytes_le(k, target) {"
-//@loop 1
-//@| invariant internal_wf(self.b()), seps_sorted(int_seps(self.b())), n == pg_count(self.b()), lo <= hi <= n, n <= 65535,
-//@|     forall|i: int| 0 <= i < lo ==> lex_lt(#[trigger] int_seps(self.b())[i], target@),
-//@|     forall|i: int| hi <= i < n ==> lex_le(target@, #[trigger] int_seps(self.b())[i]),
-//@| decreases hi - lo
-//@proof before 1 "=lo = mid + 1;"
-//@| let cs = int_seps(self.b());
-//@| assert forall|i: int| 0 <= i < mid + 1 implies lex_lt(#[trigger] cs[i], target@) by {
-//@|     if i < mid { assert(lex_le(cs[i], cs[mid as int])); }
-//@|     lemma_lex_irrefl(cs[mid as int]);
-//@|     lemma_lex_trans(cs[i], cs[mid as int], target@);
-//@| }
-//@proof before 1 "=hi = mid;"
-//@| let cs = int_seps(self.b());
-//@| assert forall|i: int| mid <= i < n implies lex_le(target@, #[trigger] cs[i]) by {
-//@|     if mid < i { assert(lex_le(cs[mid as int], cs[i])); }
-//@|     lemma_lex_irrefl(cs[mid as int]);
-//@|     lemma_lex_trans(target@, cs[mid as int], cs[i]);
-//@| }
-//@end
-}
-
-// ================================================================== page updates
-//@trusted v_copy_within: `buf.copy_within(src..src + len, dst)` is memmove of len bytes from src to dst inside the page buffer (std panics unless both ranges lie inside the buffer: precondition)
-#[verifier::external_body]
-pub fn v_copy_within(buf: &mut [u8; PAGE_SIZE], src: usize, src_end: usize, dst: usize)
-    requires src <= src_end <= 8192, dst + (src_end - src) <= 8192
-    ensures final(buf)@.len() == 8192,
-        final(buf)@.subrange(dst as int, dst + (src_end - src)) == old(buf)@.subrange(src as int, src_end as int),
-        forall|j: int| 0 <= j < 8192 && !(dst <= j < dst + (src_end - src)) ==> #[trigger] final(buf)@[j] == old(buf)@[j],
-{ buf.copy_within(src..src_end, dst) }
-//@trusted v_arr_range_mut: `&mut page[a..b]` is the mutable sub-slice: what is written through it lands at a..b of the page and nothing else changes (std panics unless a <= b <= 8192: precondition)
-#[verifier::external_body]
-pub fn v_arr_range_mut(page: &mut [u8; PAGE_SIZE], a: usize, b: usize) -> (r: &mut [u8])
-    requires a <= b <= 8192
-    ensures r@ == old(page)@.subrange(a as int, b as int),
-        final(page)@ == old(page)@.take(a as int) + final(r)@ + old(page)@.skip(b as int),
-{ &mut page[a..b] }
-//@trusted v_copy_from_slice: `dst.copy_from_slice(src)` overwrites dst with src (std panics unless the lengths are equal: precondition)
-#[verifier::external_body]
-pub fn v_copy_from_slice(dst: &mut [u8], src: &[u8])
-    requires old(dst)@.len() == src@.len()
-    ensures final(dst)@ == src@
-{ dst.copy_from_slice(src) }
-
-impl<'a> Page<'a> {
-//@extract nervusdb-storage/src/index/btree.rs Page::set_cell_content_begin
-//@| requires v <= 65535
-//@| ensures *final(final(self).buf) == *final(old(self).buf), final(self).b().len() == old(self).b().len(), final(self).b().subrange(8, 10) == le16(v as u16),
-//@|     forall|j: int| 0 <= j < 8192 && !(8 <= j < 10) ==> #[trigger] final(self).b()[j] == old(self).b()[j],
-//@end
-//@extract nervusdb-storage/src/index/btree.rs Page::set_cell_count
-//@| requires count <= 65535
-//@| ensures *final(final(self).buf) == *final(old(self).buf), final(self).b().len() == old(self).b().len(), final(self).b().subrange(6, 8) == le16(count as u16),
-//@|     forall|j: int| 0 <= j < 8192 && !(6 <= j < 8) ==> #[trigger] final(self).b()[j] == old(self).b()[j],
-//@end
-//@extract nervusdb-storage/src/index/btree.rs Page::set_right_sibling
-//@| ensures *final(final(self).buf) == *final(old(self).buf), final(self).b().len() == old(self).b().len(), final(self).b().subrange(16, 24) == le64(id.0),
-//@|     forall|j: int| 0 <= j < 8192 && !(16 <= j < 24) ==> #[trigger] final(self).b()[j] == old(self).b()[j],
-//@end
-//@extract nervusdb-storage/src/index/btree.rs Page::slot_set ret r
-//@| requires pg_kind_ok(old(self).b()), pg_hdr(old(self).b()) + 2 * i + 2 <= 8192, v <= 65535,
-//@| ensures *final(final(self).buf) == *final(old(self).buf), r is Ok, final(self).b().len() == 8192,
-//@|     final(self).b().subrange(pg_hdr(old(self).b()) + 2 * i, pg_hdr(old(self).b()) + 2 * i + 2) == le16(v as u16),
-//@|     forall|j: int| 0 <= j < 8192 && !(pg_hdr(old(self).b()) + 2 * i <= j < pg_hdr(old(self).b()) + 2 * i + 2) ==> #[trigger] final(self).b()[j] == old(self).b()[j],
-//@end
-//@extract nervusdb-storage/src/index/btree.rs Page::shift_slots_right ret r
-//@| requires pg_kind_ok(old(self).b()), pg_hdr(old(self).b()) + 2 * pg_count(old(self).b()) + 2 <= 8192,
-//@| ensures *final(final(self).buf) == *final(old(self).buf), r is Ok <==> idx <= pg_count(old(self).b()), final(self).b().len() == 8192,
-//@|     r is Err ==> final(self).b() == old(self).b(),
-//@|     r is Ok ==> ({ let h = pg_hdr(old(self).b()); let c = pg_count(old(self).b());
-//@|         final(self).b().subrange(h + 2 * idx + 2, h + 2 * c + 2) == old(self).b().subrange(h + 2 * idx, h + 2 * c)
-//@|         && forall|j: int| 0 <= j < 8192 && !(h + 2 * idx + 2 <= j < h + 2 * c + 2) ==> #[trigger] final(self).b()[j] == old(self).b()[j] }),
-//@preregex "self\.buf\.copy_within\(([^;]*?)\.\.([^;]*?),\s*([^;]*?)\);" => "v_copy_within(self.buf, \1, \2, \3);"
-//@end
-//@extract nervusdb-storage/src/index/btree.rs Page::shift_slots_left ret r
-//@| requires pg_kind_ok(old(self).b()), pg_hdr(old(self).b()) + 2 * pg_count(old(self).b()) <= 8192,
-//@| ensures *final(final(self).buf) == *final(old(self).buf), r is Ok <==> idx < pg_count(old(self).b()), final(self).b().len() == 8192,
-//@|     r is Err ==> final(self).b() == old(self).b(),
-//@|     r is Ok ==> ({ let h = pg_hdr(old(self).b()); let c = pg_count(old(self).b());
-//@|         final(self).b().subrange(h + 2 * idx, h + 2 * c - 2) == old(self).b().subrange(h + 2 * idx + 2, h + 2 * c)
-//@|         && forall|j: int| 0 <= j < 8192 && !(h + 2 * idx <= j < h + 2 * c - 2) ==> #[trigger] final(self).b()[j] == old(self).b()[j] }),
-//@preregex "self\.buf\.copy_within\(([^;]*?)\.\.([^;]*?),\s*([^;]*?)\);" => "v_copy_within(self.buf, \1, \2, \3);"
-//@end
-}
-
-// ================================================================== view lemmas for page updates
-/// bytes from `off` on unchanged  ==>  the leaf cell at `off` reads the same
-pub proof fn lemma_cell_frame(b0: Seq<u8>, b1: Seq<u8>, off: int)
-    requires b0.len() == 8192, b1.len() == 8192, 0 <= off < 8192, forall|j: int| off <= j < 8192 ==> b1[j] == b0[j],
-    ensures lc_ok(b1, off) == lc_ok(b0, off), lc_vlen(b1, off) == lc_vlen(b0, off), lc_klen(b1, off) == lc_klen(b0, off),
-        lc_ok(b0, off) ==> lc_key(b1, off) == lc_key(b0, off) && lc_payload(b1, off) == lc_payload(b0, off),
-{
-    assert(b1.skip(off) =~= b0.skip(off));
-    if lc_ok(b0, off) {
-        axiom_vdec_bounds(b0.skip(off));
-        assert(lc_key(b1, off) =~= lc_key(b0, off));
-        assert(b1.subrange(lc_end(b0, off) - 8, lc_end(b0, off)) =~= b0.subrange(lc_end(b0, off) - 8, lc_end(b0, off)));
-    }
-}
-/// the two slot bytes unchanged (and the kind byte)  ==>  the slot reads the same
-pub proof fn lemma_slot_same(b0: Seq<u8>, b1: Seq<u8>, i: int, k: int)
-    requires b0.len() == 8192, b1.len() == 8192, b1[4] == b0[4], 0 <= i, 0 <= k, pg_hdr(b0) + 2 * i + 2 <= 8192, pg_hdr(b0) + 2 * k + 2 <= 8192,
-        b1[pg_hdr(b0) + 2 * i] == b0[pg_hdr(b0) + 2 * k], b1[pg_hdr(b0) + 2 * i + 1] == b0[pg_hdr(b0) + 2 * k + 1],
-    ensures pg_slot(b1, i) == pg_slot(b0, k),
-{
-    let h = pg_hdr(b0);
-    assert(b1.subrange(h + 2 * i, h + 2 * i + 2) =~= b0.subrange(h + 2 * k, h + 2 * k + 2));
-}
-
-/// C26.page.delete.view — removing slot `idx` (slots shifted left, count decremented) removes exactly
-/// entry `idx` of the abstract view and keeps the page well formed.
-pub proof fn lemma_delete_view(b0: Seq<u8>, b1: Seq<u8>, b2: Seq<u8>, idx: int)
-    requires leaf_wf(b0), 0 <= idx < pg_count(b0), b1.len() == 8192, b2.len() == 8192,
-        b1.subrange(24 + 2 * idx, 24 + 2 * pg_count(b0) - 2) == b0.subrange(24 + 2 * idx + 2, 24 + 2 * pg_count(b0)),
-        forall|j: int| 0 <= j < 8192 && !(24 + 2 * idx <= j < 24 + 2 * pg_count(b0) - 2) ==> #[trigger] b1[j] == b0[j],
-        b2.subrange(6, 8) == le16((pg_count(b0) - 1) as u16),
-        forall|j: int| 0 <= j < 8192 && !(6 <= j < 8) ==> #[trigger] b2[j] == b1[j],
-    ensures leaf_wf(b2), leaf_cells(b2) == leaf_cells(b0).remove(idx),
-{
-    let c = pg_count(b0);
-    lemma_le16_len((c - 1) as u16);
-    assert(b2.subrange(0, 4) =~= b0.subrange(0, 4));
-    assert(b2.subrange(8, 10) =~= b0.subrange(8, 10));
-    assert(pg_count(b2) == c - 1);
-    assert(pg_begin(b2) == pg_begin(b0));
-    assert forall|i: int| 0 <= i < c - 1 implies
-        pg_slot(b2, i) == pg_slot(b0, if i < idx { i } else { i + 1 }) by {
-        let k = if i < idx { i } else { i + 1 };
-        if i >= idx {
-            let x = b1.subrange(24 + 2 * idx, 24 + 2 * c - 2); let y = b0.subrange(24 + 2 * idx + 2, 24 + 2 * c);
-            assert(x[2 * (i - idx)] == y[2 * (i - idx)]);
-            assert(x[2 * (i - idx) + 1] == y[2 * (i - idx) + 1]);
-        }
-        lemma_slot_same(b0, b2, i, k);
-    }
-    assert forall|i: int| 0 <= i < pg_count(b2) implies pg_begin(b2) <= #[trigger] pg_slot(b2, i) && lc_ok(b2, pg_slot(b2, i)) by {
-        let k = if i < idx { i } else { i + 1 };
-        assert(pg_begin(b0) <= pg_slot(b0, k) && lc_ok(b0, pg_slot(b0, k)));
-        lemma_cell_frame(b0, b2, pg_slot(b0, k));
-    }
-    assert forall|i: int| 0 <= i < c - 1 implies #[trigger] leaf_cells(b2)[i] == leaf_cells(b0).remove(idx)[i] by {
-        let k = if i < idx { i } else { i + 1 };
-        assert(pg_begin(b0) <= pg_slot(b0, k) && lc_ok(b0, pg_slot(b0, k)));
-        lemma_cell_frame(b0, b2, pg_slot(b0, k));
-    }
-    assert(leaf_cells(b2) =~= leaf_cells(b0).remove(idx));
-}
-
-impl<'a> Page<'a> {
-// C26.page.delete_from_leaf.spec — whole view, not just the touched cell.
-//@extract nervusdb-storage/src/index/btree.rs Page::delete_from_leaf ret r
-//@| requires leaf_wf(old(self).b()),
-//@| ensures *final(final(self).buf) == *final(old(self).buf), r is Ok <==> idx < pg_count(old(self).b()),
-//@|     r is Err ==> final(self).b() == old(self).b(),
-//@|     r is Ok ==> leaf_wf(final(self).b()) && leaf_cells(final(self).b()) == leaf_cells(old(self).b()).remove(idx as int),
-//@proof after 1 "self.shift_slots_left(" raw
-//@| let ghost b1 = self.b();
-//@proof before 1 "=Ok(())"
-//@| lemma_delete_view(old(self).b(), b1, self.b(), idx as int);
-//@end
-}
-
-/// C26.page.insert.view — the byte-level effect of leaf_insert_at (new cell written just below the old
-/// content area, slots from idx shifted right, slot idx pointing at the new cell, count + 1) inserts
-/// exactly the entry (key, payload) at position idx of the abstract view and keeps the page well formed.
-pub proof fn lemma_insert_view(b0: Seq<u8>, b: Seq<u8>, idx: int, key: Seq<u8>, payload: u64)
-    requires leaf_wf(b0), 0 <= idx <= pg_count(b0), key.len() <= u32::MAX, b.len() == 8192,
-        24 + 2 * pg_count(b0) + 2 + vlen(key.len() as u32) + key.len() + 8 <= pg_begin(b0),
-        forall|j: int| (0 <= j < 6 || 10 <= j < 24 + 2 * idx || pg_begin(b0) <= j < 8192) ==> #[trigger] b[j] == b0[j],
-        b.subrange(6, 8) == le16((pg_count(b0) + 1) as u16),
-        b.subrange(8, 10) == le16((pg_begin(b0) - (vlen(key.len() as u32) + key.len() + 8)) as u16),
-        b.subrange(24 + 2 * idx, 24 + 2 * idx + 2) == le16((pg_begin(b0) - (vlen(key.len() as u32) + key.len() + 8)) as u16),
-        b.subrange(24 + 2 * idx + 2, 24 + 2 * pg_count(b0) + 2) == b0.subrange(24 + 2 * idx, 24 + 2 * pg_count(b0)),
-        b.subrange(pg_begin(b0) - (vlen(key.len() as u32) + key.len() + 8), pg_begin(b0)) == venc(key.len() as u32) + key + le64(payload),
-    ensures leaf_wf(b), leaf_cells(b) == leaf_cells(b0).insert(idx, (key, payload)),
-{
-    let c = pg_count(b0);
-    let bg = pg_begin(b0);
-    let kl = key.len() as u32;
-    let vl = vlen(kl);
-    let co = bg - (vl + key.len() + 8);
-    lemma_le16_len((c + 1) as u16);
-    lemma_le16_len(co as u16);
-    lemma_venc_len(kl);
-    lemma_le64_len(payload);
-    assert(b.subrange(0, 4) =~= b0.subrange(0, 4));
-    assert(pg_count(b) == c + 1);
-    assert(pg_begin(b) == co);
-    // the new cell
-    let cell = venc(kl) + key + le64(payload);
-    assert(b.skip(co) =~= venc(kl) + (key + le64(payload) + b.skip(bg))) by {
-        let x = b.subrange(co, bg);
-        assert forall|j: int| 0 <= j < 8192 - co implies #[trigger] b.skip(co)[j] == (venc(kl) + (key + le64(payload) + b.skip(bg)))[j] by {
-            if j < bg - co { assert(x[j] == cell[j]); }
-        }
-    }
-    axiom_vdec_roundtrip(kl, key + le64(payload) + b.skip(bg));
-    assert(lc_vlen(b, co) == vl && lc_klen(b, co) == key.len());
-    assert(lc_end(b, co) == bg);
-    assert(lc_key(b, co) =~= key) by {
-        let x = b.subrange(co, bg);
-        assert forall|j: int| 0 <= j < key.len() implies #[trigger] lc_key(b, co)[j] == key[j] by { assert(x[vl + j] == cell[vl + j]); }
-    }
-    assert(b.subrange(bg - 8, bg) =~= le64(payload)) by {
-        let x = b.subrange(co, bg);
-        assert forall|j: int| 0 <= j < 8 implies #[trigger] b.subrange(bg - 8, bg)[j] == le64(payload)[j] by { assert(x[vl + key.len() + j] == cell[vl + key.len() + j]); }
-    }
-    assert(lc_payload(b, co) == payload);
-    // the slots
-    assert(pg_slot(b, idx) == co);
-    assert forall|i: int| 0 <= i < c + 1 && i != idx implies pg_slot(b, i) == pg_slot(b0, if i < idx { i } else { i - 1 }) by {
-        let k = if i < idx { i } else { i - 1 };
-        if i > idx {
-            let x = b.subrange(24 + 2 * idx + 2, 24 + 2 * c + 2); let y = b0.subrange(24 + 2 * idx, 24 + 2 * c);
-            assert(x[2 * (i - idx - 1)] == y[2 * (i - idx - 1)]);
-            assert(x[2 * (i - idx - 1) + 1] == y[2 * (i - idx - 1) + 1]);
-        }
-        lemma_slot_same(b0, b, i, k);
-    }
-    assert forall|i: int| 0 <= i < pg_count(b) implies pg_begin(b) <= #[trigger] pg_slot(b, i) && lc_ok(b, pg_slot(b, i)) by {
-        if i != idx {
-            let k = if i < idx { i } else { i - 1 };
-            assert(pg_begin(b0) <= pg_slot(b0, k) && lc_ok(b0, pg_slot(b0, k)));
-            lemma_cell_frame(b0, b, pg_slot(b0, k));
-        }
-    }
-    assert forall|i: int| 0 <= i < c + 1 implies #[trigger] leaf_cells(b)[i] == leaf_cells(b0).insert(idx, (key, payload))[i] by {
-        if i != idx {
-            let k = if i < idx { i } else { i - 1 };
-            assert(pg_begin(b0) <= pg_slot(b0, k) && lc_ok(b0, pg_slot(b0, k)));
-            lemma_cell_frame(b0, b, pg_slot(b0, k));
-        }
-    }
-    assert(leaf_cells(b) =~= leaf_cells(b0).insert(idx, (key, payload)));
-}
-
-impl<'a> Page<'a> {
-// C26.page.leaf_insert_at.spec — whole view: Ok inserts exactly (key, payload) at idx and keeps the page
-// well formed; Err leaves the page bytes unchanged; it succeeds exactly when the position is valid and
-// the cell and its slot fit into the free space.
-//@extract nervusdb-storage/src/index/btree.rs Page::leaf_insert_at ret r
-//@| requires leaf_wf(old(self).b()), key@.len() <= 0x7fff_ffff_ffff_ffff,
-//@| ensures *final(final(self).buf) == *final(old(self).buf), r is Err ==> final(self).b() == old(self).b(),
-//@|     r is Ok ==> leaf_wf(final(self).b()) && leaf_cells(final(self).b()) == leaf_cells(old(self).b()).insert(idx as int, (key@, payload)),
-//@|     r is Ok <==> key@.len() <= u32::MAX && idx <= pg_count(old(self).b())
-//@|         && 24 + 2 * pg_count(old(self).b()) + 2 + vlen(key@.len() as u32) + key@.len() + 8 <= pg_begin(old(self).b()),
-//@prewrite "&mut self.buf[cell_off..cell_off + var_len]" => "v_arr_range_mut(self.buf, cell_off, cell_off + var_len)"
-//@prewrite "self.buf[key_start..key_start + key.len()].copy_from_slice(key);" => "v_copy_from_slice(v_arr_range_mut(self.buf, key_start, key_start + key.len()), key);"
-//@prewrite "debug_assert_eq!(wrote, var_len);" => "assert(wrote == var_len);"
-//@proof after 1 "self.set_cell_content_begin(" raw
-//@| let ghost s1 = self.b();
-//@proof before 1 "let key_start = cell_off + var_len;" raw
-//@| let ghost s2 = self.b();
-//@| proof {
-//@|     lemma_venc_len(key_len);
-//@|     assert(s2.subrange(cell_off as int, cell_off + var_len) =~= venc(key_len));
-//@|     assert forall|j: int| 0 <= j < 8192 && !(cell_off <= j < cell_off + var_len) implies #[trigger] s2[j] == s1[j] by {}
-//@| }
-//@proof before 1 "write_u64_le(self.buf," raw
-//@| let ghost s3 = self.b();
-//@| proof {
-//@|     assert(s3.subrange(key_start as int, key_start + key@.len()) =~= key@);
-//@|     assert forall|j: int| 0 <= j < 8192 && !(key_start <= j < key_start + key@.len()) implies #[trigger] s3[j] == s2[j] by {}
-//@| }
-//@proof before 1 "self.shift_slots_right(" raw
-//@| let ghost s4 = self.b();
-//@| proof {
-//@|     assert(pg_kind_ok(s4)) by { assert(s4.subrange(0, 4) =~= old(self).b().subrange(0, 4)); }
-//@|     assert(pg_count(s4) == count) by { assert(s4.subrange(6, 8) =~= old(self).b().subrange(6, 8)); }
-//@| }
-//@proof before 1 "self.slot_set(" raw
-//@| let ghost s5 = self.b();
-//@| proof { assert(pg_kind_ok(s5)) by { assert(s5.subrange(0, 4) =~= old(self).b().subrange(0, 4)); } }
-//@proof before 1 "self.set_cell_count(" raw
-//@| let ghost s6 = self.b();
-//@proof before 1 "=Ok(())"
-//@| let b0 = old(self).b(); let b = self.b(); let bg = pg_begin(b0);
-//@| lemma_le64_len(payload);
-//@| assert(b.subrange(8, 10) =~= s1.subrange(8, 10));
-//@| assert(b.subrange(24 + 2 * idx, 24 + 2 * idx + 2) =~= s6.subrange(24 + 2 * idx, 24 + 2 * idx + 2));
-//@| assert(b.subrange(24 + 2 * idx + 2, 24 + 2 * count + 2) =~= b0.subrange(24 + 2 * idx, 24 + 2 * count)) by {
-//@|     let x = s5.subrange(24 + 2 * idx + 2, 24 + 2 * count + 2); let y = s4.subrange(24 + 2 * idx, 24 + 2 * count);
-//@|     assert forall|j: int| 0 <= j < 2 * (count - idx) implies #[trigger] b.subrange(24 + 2 * idx + 2, 24 + 2 * count + 2)[j] == b0.subrange(24 + 2 * idx, 24 + 2 * count)[j] by {
-//@|         assert(x[j] == y[j]);
-//@|     }
-//@| }
-//@| assert(b.subrange(cell_off as int, bg) =~= venc(key_len) + key@ + le64(payload)) by {
-//@|     let v = s2.subrange(cell_off as int, cell_off + var_len); let k = s3.subrange(key_start as int, key_start + key@.len());
-//@|     let p = s4.subrange(key_start + key@.len(), key_start + key@.len() + 8);
-//@|     assert forall|j: int| 0 <= j < bg - cell_off implies #[trigger] b.subrange(cell_off as int, bg)[j] == (venc(key_len) + key@ + le64(payload))[j] by {
-//@|         if j < var_len { assert(v[j] == venc(key_len)[j]); }
-//@|         else if j < var_len + key@.len() { assert(k[j - var_len] == key@[j - var_len]); }
-//@|         else { assert(p[j - var_len - key@.len()] == le64(payload)[j - var_len - key@.len()]); }
-//@|     }
-//@| }
-//@| lemma_insert_view(b0, b, idx as int, key@, payload);
-//@end
-}
-
-//@trusted v_fill: `buf.fill(x)` sets every byte of the page buffer to x (std)
-#[verifier::external_body]
-pub fn v_fill(buf: &mut [u8; PAGE_SIZE], x: u8)
-    ensures final(buf)@.len() == 8192, forall|j: int| 0 <= j < 8192 ==> #[trigger] final(buf)@[j] == x
-{ buf.fill(x) }
-
-impl<'a> Page<'a> {
-// C26.page.init_leaf.spec — a fresh leaf is well formed, empty, and has no right sibling.
-//@extract nervusdb-storage/src/index/btree.rs Page::init_leaf
-//@| ensures *final(final(self).buf) == *final(old(self).buf), leaf_wf(final(self).b()), pg_count(final(self).b()) == 0, leaf_cells(final(self).b()) =~= Seq::<(Seq<u8>, u64)>::empty(),
-//@|     from_le64(final(self).b().subrange(16, 24)) == 0,
-//@prewrite "self.buf.fill(0);" => "v_fill(self.buf, 0);"
-//@prewrite "self.buf[OFF_MAGIC..OFF_MAGIC + 4].copy_from_slice(&MAGIC);" => "v_slice_write(self.buf, OFF_MAGIC, &MAGIC);"
-//@proof before 1 "=}"
-//@| let b = self.b();
-//@| lemma_le16_len(0u16); lemma_le16_len(8192u16); lemma_le64_len(0u64);
-//@| assert(b.subrange(0, 4) =~= magic4());
-//@end
-}
-
-// ================================================================== leaf-level laws over the abstract view
-/// C26.leaf.insert_keeps_key_order — inserting at the position `leaf_lower_bound` returns keeps the keys
-/// in order and puts the new entry in front of every entry with an equal key, so that the lower bound of
-/// that key is the new entry: a lookup returns the most recently inserted payload (within one leaf).
-pub proof fn lemma_insert_at_lower_bound(cells: Seq<(Seq<u8>, u64)>, r: int, key: Seq<u8>, payload: u64)
-    requires keys_sorted(cells), 0 <= r <= cells.len(),
-        forall|i: int| 0 <= i < r ==> lex_lt(#[trigger] cells[i].0, key),
-        forall|i: int| r <= i < cells.len() ==> lex_le(key, #[trigger] cells[i].0),
-    ensures keys_sorted(cells.insert(r, (key, payload))),
-        cells.insert(r, (key, payload))[r] == (key, payload),
-        forall|i: int| 0 <= i < r ==> lex_lt(#[trigger] cells.insert(r, (key, payload))[i].0, key),
-        forall|i: int| r <= i < cells.len() + 1 ==> lex_le(key, #[trigger] cells.insert(r, (key, payload))[i].0),
-{
-    let c2 = cells.insert(r, (key, payload));
-    lemma_lex_irrefl(key);
-    assert forall|i: int, j: int| 0 <= i < j < c2.len() implies lex_le(#[trigger] c2[i].0, #[trigger] c2[j].0) by {
-        if j < r { assert(lex_le(cells[i].0, cells[j].0)); }
-        else if j == r { lemma_lex_total(cells[i].0, key); }
-        else if i < r { lemma_lex_trans(cells[i].0, key, cells[j - 1].0); lemma_lex_total(cells[i].0, cells[j - 1].0); }
-        else if i == r { }
-        else { assert(lex_le(cells[i - 1].0, cells[j - 1].0)); }
-    }
-}
-/// C26.leaf.delete_keeps_key_order — removing an entry keeps the others in order.
-pub proof fn lemma_remove_keeps_sorted(cells: Seq<(Seq<u8>, u64)>, idx: int)
-    requires keys_sorted(cells), 0 <= idx < cells.len(),
-    ensures keys_sorted(cells.remove(idx)),
-{
-    let c2 = cells.remove(idx);
-    assert forall|i: int, j: int| 0 <= i < j < c2.len() implies lex_le(#[trigger] c2[i].0, #[trigger] c2[j].0) by {
-        let i0 = if i < idx { i } else { i + 1 }; let j0 = if j < idx { j } else { j + 1 };
-        assert(lex_le(cells[i0].0, cells[j0].0));
-    }
-}
-
-// ================================================================== internal page updates
-pub open spec fn int_children(b: Seq<u8>) -> Seq<u64> { Seq::new(pg_count(b) as nat, |i: int| ic_child(b, pg_slot(b, i))) }
-
-pub proof fn lemma_icell_frame(b0: Seq<u8>, b1: Seq<u8>, off: int)
-    requires b0.len() == 8192, b1.len() == 8192, 0 <= off, off + 8 < 8192, forall|j: int| off <= j < 8192 ==> b1[j] == b0[j],
-    ensures ic_ok(b1, off) == ic_ok(b0, off), ic_vlen(b1, off) == ic_vlen(b0, off), ic_klen(b1, off) == ic_klen(b0, off),
-        ic_ok(b0, off) ==> ic_key(b1, off) == ic_key(b0, off) && ic_child(b1, off) == ic_child(b0, off),
-{
-    if off + 8 < 8192 {
-        assert(b1.skip(off + 8) =~= b0.skip(off + 8));
-        if ic_ok(b0, off) {
-            axiom_vdec_bounds(b0.skip(off + 8));
-            assert(ic_key(b1, off) =~= ic_key(b0, off));
-            assert(b1.subrange(off, off + 8) =~= b0.subrange(off, off + 8));
-        }
-    }
-}
-
-/// C26.page.internal_insert.view — separator `key` with right child `child` is inserted at cell position idx;
-/// every other separator/child and the leftmost child are unchanged.
-pub proof fn lemma_internal_insert_view(b0: Seq<u8>, b: Seq<u8>, idx: int, key: Seq<u8>, child: u64)
-    requires internal_wf(b0), 0 <= idx <= pg_count(b0), key.len() <= u32::MAX, b.len() == 8192,
-        32 + 2 * pg_count(b0) + 2 + 8 + vlen(key.len() as u32) + key.len() <= pg_begin(b0),
-        forall|j: int| (0 <= j < 6 || 10 <= j < 32 + 2 * idx || pg_begin(b0) <= j < 8192) ==> #[trigger] b[j] == b0[j],
-        b.subrange(6, 8) == le16((pg_count(b0) + 1) as u16),
-        b.subrange(8, 10) == le16((pg_begin(b0) - (8 + vlen(key.len() as u32) + key.len())) as u16),
-        b.subrange(32 + 2 * idx, 32 + 2 * idx + 2) == le16((pg_begin(b0) - (8 + vlen(key.len() as u32) + key.len())) as u16),
-        b.subrange(32 + 2 * idx + 2, 32 + 2 * pg_count(b0) + 2) == b0.subrange(32 + 2 * idx, 32 + 2 * pg_count(b0)),
-        b.subrange(pg_begin(b0) - (8 + vlen(key.len() as u32) + key.len()), pg_begin(b0)) == le64(child) + venc(key.len() as u32) + key,
-    ensures internal_wf(b), int_seps(b) == int_seps(b0).insert(idx, key), int_children(b) == int_children(b0).insert(idx, child),
-        int_child(b, 0) == int_child(b0, 0),
-{
-    let c = pg_count(b0);
-    let bg = pg_begin(b0);
-    let kl = key.len() as u32;
-    let vl = vlen(kl);
-    let co = bg - (8 + vl + key.len());
-    lemma_le16_len((c + 1) as u16);
-    lemma_le16_len(co as u16);
-    lemma_venc_len(kl);
-    lemma_le64_len(child);
-    assert(b.subrange(0, 4) =~= b0.subrange(0, 4));
-    assert(b.subrange(24, 32) =~= b0.subrange(24, 32));
-    assert(pg_count(b) == c + 1);
-    assert(pg_begin(b) == co);
-    let cell = le64(child) + venc(kl) + key;
-    let x = b.subrange(co, bg);
-    assert(b.skip(co + 8) =~= venc(kl) + (key + b.skip(bg))) by {
-        assert forall|j: int| 0 <= j < 8192 - co - 8 implies #[trigger] b.skip(co + 8)[j] == (venc(kl) + (key + b.skip(bg)))[j] by {
-            if j < bg - co - 8 { assert(x[8 + j] == cell[8 + j]); }
-        }
-    }
-    axiom_vdec_roundtrip(kl, key + b.skip(bg));
-    assert(ic_vlen(b, co) == vl && ic_klen(b, co) == key.len());
-    assert(ic_end(b, co) == bg);
-    assert(ic_key(b, co) =~= key) by {
-        assert forall|j: int| 0 <= j < key.len() implies #[trigger] ic_key(b, co)[j] == key[j] by { assert(x[8 + vl + j] == cell[8 + vl + j]); }
-    }
-    assert(b.subrange(co, co + 8) =~= le64(child)) by {
-        assert forall|j: int| 0 <= j < 8 implies #[trigger] b.subrange(co, co + 8)[j] == le64(child)[j] by { assert(x[j] == cell[j]); }
-    }
-    assert(ic_child(b, co) == child);
-    assert(pg_slot(b, idx) == co);
-    assert forall|i: int| 0 <= i < c + 1 && i != idx implies pg_slot(b, i) == pg_slot(b0, if i < idx { i } else { i - 1 }) by {
-        let k = if i < idx { i } else { i - 1 };
-        if i > idx {
-            let xs = b.subrange(32 + 2 * idx + 2, 32 + 2 * c + 2); let ys = b0.subrange(32 + 2 * idx, 32 + 2 * c);
-            assert(xs[2 * (i - idx - 1)] == ys[2 * (i - idx - 1)]);
-            assert(xs[2 * (i - idx - 1) + 1] == ys[2 * (i - idx - 1) + 1]);
-        }
-        lemma_slot_same(b0, b, i, k);
-    }
-    assert forall|i: int| 0 <= i < pg_count(b) implies pg_begin(b) <= #[trigger] pg_slot(b, i) && ic_ok(b, pg_slot(b, i)) by {
-        if i != idx {
-            let k = if i < idx { i } else { i - 1 };
-            assert(pg_begin(b0) <= pg_slot(b0, k) && ic_ok(b0, pg_slot(b0, k)));
-            lemma_icell_frame(b0, b, pg_slot(b0, k));
-        }
-    }
-    assert forall|i: int| 0 <= i < c + 1 implies #[trigger] int_seps(b)[i] == int_seps(b0).insert(idx, key)[i] by {
-        if i != idx {
-            let k = if i < idx { i } else { i - 1 };
-            assert(pg_begin(b0) <= pg_slot(b0, k) && ic_ok(b0, pg_slot(b0, k)));
-            lemma_icell_frame(b0, b, pg_slot(b0, k));
-        }
-    }
-    assert forall|i: int| 0 <= i < c + 1 implies #[trigger] int_children(b)[i] == int_children(b0).insert(idx, child)[i] by {
-        if i != idx {
-            let k = if i < idx { i } else { i - 1 };
-            assert(pg_begin(b0) <= pg_slot(b0, k) && ic_ok(b0, pg_slot(b0, k)));
-            lemma_icell_frame(b0, b, pg_slot(b0, k));
-        }
-    }
-    assert(int_seps(b) =~= int_seps(b0).insert(idx, key));
-    assert(int_children(b) =~= int_children(b0).insert(idx, child));
-}
-
-impl<'a> Page<'a> {
-// C26.page.internal_insert_at.spec — whole view, like leaf_insert_at.
-//@extract nervusdb-storage/src/index/btree.rs Page::internal_insert_at ret r
-//@| requires internal_wf(old(self).b()), key@.len() <= 0x7fff_ffff_ffff_ffff,
-//@| ensures *final(final(self).buf) == *final(old(self).buf), r is Err ==> final(self).b() == old(self).b(),
-//@|     r is Ok ==> internal_wf(final(self).b()) && int_seps(final(self).b()) == int_seps(old(self).b()).insert(idx as int, key@)
-//@|         && int_children(final(self).b()) == int_children(old(self).b()).insert(idx as int, right_child.0)
-//@|         && int_child(final(self).b(), 0) == int_child(old(self).b(), 0),
-//@|     r is Ok <==> key@.len() <= u32::MAX && idx <= pg_count(old(self).b())
-//@|         && 32 + 2 * pg_count(old(self).b()) + 2 + 8 + vlen(key@.len() as u32) + key@.len() <= pg_begin(old(self).b()),
-//@prewrite "&mut self.buf[cell_off + 8..cell_off + 8 + var_len]" => "v_arr_range_mut(self.buf, cell_off + 8, cell_off + 8 + var_len)"
-//@prewrite "self.buf[key_start..key_start + key.len()].copy_from_slice(key);" => "v_copy_from_slice(v_arr_range_mut(self.buf, key_start, key_start + key.len()), key);"
-//@prewrite "debug_assert_eq!(wrote, var_len);" => "assert(wrote == var_len);"
-//@proof after 1 "self.set_cell_content_begin(" raw
-//@| let ghost s1 = self.b();
-//@proof before 1 "let wrote = write_varint_u32(" raw
-//@| let ghost s1b = self.b();
-//@proof before 1 "let key_start = cell_off + 8 + var_len;" raw
-//@| let ghost s2 = self.b();
-//@| proof {
-//@|     lemma_venc_len(key_len);
-//@|     assert(s2.subrange(cell_off + 8, cell_off + 8 + var_len) =~= venc(key_len));
-//@|     assert forall|j: int| 0 <= j < 8192 && !(cell_off + 8 <= j < cell_off + 8 + var_len) implies #[trigger] s2[j] == s1b[j] by {}
-//@| }
-//@proof before 1 "self.shift_slots_right(" raw
-//@| let ghost s4 = self.b();
-//@| proof {
-//@|     assert(s4.subrange(key_start as int, key_start + key@.len()) =~= key@);
-//@|     assert forall|j: int| 0 <= j < 8192 && !(key_start <= j < key_start + key@.len()) implies #[trigger] s4[j] == s2[j] by {}
-//@|     assert(pg_kind_ok(s4)) by { assert(s4.subrange(0, 4) =~= old(self).b().subrange(0, 4)); }
-//@|     assert(pg_count(s4) == count) by { assert(s4.subrange(6, 8) =~= old(self).b().subrange(6, 8)); }
-//@| }
-//@proof before 1 "self.slot_set(" raw
-//@| let ghost s5 = self.b();
-//@| proof { assert(pg_kind_ok(s5)) by { assert(s5.subrange(0, 4) =~= old(self).b().subrange(0, 4)); } }
-//@proof before 1 "self.set_cell_count(" raw
-//@| let ghost s6 = self.b();
-//@proof before 1 "=Ok(())"
-//@| let b0 = old(self).b(); let b = self.b(); let bg = pg_begin(b0);
-//@| lemma_le64_len(right_child.0);
-//@| assert(b.subrange(8, 10) =~= s1.subrange(8, 10));
-//@| assert(b.subrange(32 + 2 * idx, 32 + 2 * idx + 2) =~= s6.subrange(32 + 2 * idx, 32 + 2 * idx + 2));
-//@| assert(b.subrange(32 + 2 * idx + 2, 32 + 2 * count + 2) =~= b0.subrange(32 + 2 * idx, 32 + 2 * count)) by {
-//@|     let x = s5.subrange(32 + 2 * idx + 2, 32 + 2 * count + 2); let y = s4.subrange(32 + 2 * idx, 32 + 2 * count);
-//@|     assert forall|j: int| 0 <= j < 2 * (count - idx) implies #[trigger] b.subrange(32 + 2 * idx + 2, 32 + 2 * count + 2)[j] == b0.subrange(32 + 2 * idx, 32 + 2 * count)[j] by {
-//@|         assert(x[j] == y[j]);
-//@|     }
-//@| }
-//@| assert(b.subrange(cell_off as int, bg) =~= le64(right_child.0) + venc(key_len) + key@) by {
-//@|     let c8 = s1b.subrange(cell_off as int, cell_off + 8);
-//@|     let v = s2.subrange(cell_off + 8, cell_off + 8 + var_len); let k = s4.subrange(key_start as int, key_start + key@.len());
-//@|     assert forall|j: int| 0 <= j < bg - cell_off implies #[trigger] b.subrange(cell_off as int, bg)[j] == (le64(right_child.0) + venc(key_len) + key@)[j] by {
-//@|         if j < 8 { assert(c8[j] == le64(right_child.0)[j]); }
-//@|         else if j < 8 + var_len { assert(v[j - 8] == venc(key_len)[j - 8]); }
-//@|         else { assert(k[j - 8 - var_len] == key@[j - 8 - var_len]); }
-//@|     }
-//@| }
-//@| lemma_internal_insert_view(b0, b, idx as int, key@, right_child.0);
-//@end
-}
-
-// ================================================================== tree level: BTree::delete over an abstract page store
-#[verifier::external_body]
-pub struct Pager { _p: core::marker::PhantomData<u8> }
-/// stored content of page `id` (the page-store view of unit c18_pager: Pager::page)
-pub uninterp spec fn pg(p: &Pager, id: u64) -> Seq<u8>;
-impl Pager {
-    //@trusted Pager::read_page: contract proved from the real body in unit c18_pager (a successful read returns the stored content of that page)
-    #[verifier::external_body]
-    pub fn read_page(&self, page_id: PageId) -> (r: Result<[u8; PAGE_SIZE]>)
-        ensures r is Ok ==> r->Ok_0@ == pg(self, page_id.0) && 2 <= page_id.0 < 65536
-    { unimplemented!() }
-    //@trusted Pager::write_page: contract proved from the real body in unit c18_pager (no other page changes; on success the page holds the given bytes)
-    #[verifier::external_body]
-    pub fn write_page(&mut self, page_id: PageId, page: &[u8; PAGE_SIZE]) -> (r: Result<()>)
-        ensures forall|o: u64| o != page_id.0 ==> #[trigger] pg(final(self), o) == pg(old(self), o),
-            r is Ok ==> pg(final(self), page_id.0) == page@,
-    { unimplemented!() }
-}
-//@item nervusdb-storage/src/index/btree.rs struct BTree
-/// page-local part of the tree invariant: every index page in the store is well formed and in order
-pub open spec fn tree_pages_ok(p: &Pager) -> bool {
-    forall|id: u64| pg_kind_ok(#[trigger] pg(p, id)) ==>
-        (pg(p, id)[4] == 0 ==> leaf_wf(pg(p, id)) && keys_sorted(leaf_cells(pg(p, id)))
-            // a leaf's right sibling link, when set, points at a leaf page
-            && (from_le64(pg(p, id).subrange(16, 24)) != 0 ==> pg_kind_ok(pg(p, from_le64(pg(p, id).subrange(16, 24)))) && pg(p, from_le64(pg(p, id).subrange(16, 24)))[4] == 0))
-        && (pg(p, id)[4] == 1 ==> internal_wf(pg(p, id)) && seps_sorted(int_seps(pg(p, id))))
-}
 //@trusted v_bytes_ne: `!=` on byte slices is sequence inequality (std)
 #[verifier::external_body]
 pub fn v_bytes_ne(a: &[u8], b: &[u8]) -> (r: bool)
